@@ -111,6 +111,9 @@ type history struct {
 	Stack     int         `json:"stack"`
 	Immutable bool        `json:"immutable"`
 	Ops       []memsim.Op `json:"ops"`
+	// Drains: how the reader of the i-th read operation (GetBlob, GetBlobRange, GetManifest,
+	// GetTag, in order) is drained (drain.go); none: io.ReadAll.  Not part of the Coq case.
+	Drains []drainSpec `json:"drains,omitempty"`
 }
 
 func opCoq(o memsim.Op) string {
@@ -185,13 +188,15 @@ func subjectJSONOK(media string, data []byte) bool {
 type histRun struct {
 	results []memsim.Result
 	coq     string
-	oneByte bool // a 1-byte flush at offset 0 over HTTP happened (known defect of the range codec)
+	drains  []string // how each reader was drained, in order
+	oneByte bool     // a 1-byte flush at offset 0 over HTTP happened (known defect of the range codec)
 }
 
 func execHistory(h history) histRun {
 	st := newStack(h.Stack, h.Immutable)
 	defer st.Close()
-	ex := memsim.NewExec(st.reg, h.Stack == stMem)
+	dreg := &drainReg{Interface: st.reg, specs: h.Drains}
+	ex := memsim.NewExec(dreg, h.Stack == stMem)
 	ex.Ctx = context.Background()
 	or := memsim.NewOracles()
 	written := map[int][]byte{}
@@ -245,11 +250,15 @@ func execHistory(h history) histRun {
 		opsCoq = append(opsCoq, opCoq(o))
 		resCoq = append(resCoq, r.Coq())
 	}
+	run.drains = dreg.used
 	run.coq = fmt.Sprintf("CHist %d %s %s %s %s %s", h.Stack, hx.Bool(h.Immutable), or.Coq(), hx.List(subj), hx.List(opsCoq), hx.List(resCoq))
 	return run
 }
 
 func runHistory(out *hx.Out, h history, origin string) []memsim.Result {
+	if h.Drains == nil && origin != "corpus" && origin != "replay" {
+		h.Drains = drawDrains(h.Ops)
+	}
 	run := execHistory(h)
 	type step struct {
 		Op  memsim.Op     `json:"op"`
@@ -264,13 +273,14 @@ func runHistory(out *hx.Out, h history, origin string) []memsim.Result {
 		class = "http-one-byte-flush"
 	}
 	if out.Add(hx.Case{Coq: run.coq,
-		Desc: map[string]any{"input": caseInput{Kind: "hist", Hist: &h}, "trace": steps, "origin": origin},
+		Desc: map[string]any{"input": caseInput{Kind: "hist", Hist: &h}, "trace": steps, "drained": run.drains, "origin": origin},
 		Tags: map[string]any{"class": class, "stack": stackNames[h.Stack], "immutable": h.Immutable}}) {
 		out.Count("hist:stack:" + stackNames[h.Stack])
 		out.Count("hist:origin:" + origin)
 		if run.oneByte {
 			out.Count("hist:one-byte-flush")
 		}
+		nread := 0
 		for i, o := range h.Ops {
 			r := run.results[i]
 			out.Count("hist:op:" + o.Kind)
@@ -280,6 +290,10 @@ func runHistory(out *hx.Out, h history, origin string) []memsim.Result {
 				if r.Kind == "read" {
 					out.Count(fmt.Sprintf("hist:readlen:%s", lenClass(len(r.Data))))
 				}
+				if nread < len(h.Drains) && r.Kind != "err" {
+					out.Count("hist:drain:" + drainModeNames[h.Drains[nread].Mode%nDrainModes])
+				}
+				nread++
 			case "PushBlob", "WCommit", "XPutManifest", "XPostBlob", "PushManifest":
 				out.Count("hist:push:" + o.Kind + ":" + r.Kind)
 			}
